@@ -1,5 +1,6 @@
 import Srctools.Proofs.C01
 import Srctools.Gen.Kvser
+import Srctools.Props.C03
 /-!
 # C01 — KeyValues1 serialise/parse round trip preserves the whole tree
 
@@ -119,6 +120,38 @@ theorem C01_roundtrip_single_block (T : Tables) (hE : escOK T = true) (hK : kvOK
       keyOk_step ht.1, addKid]
     rw [parse_list po fold cs ht.2 3 ⟨.named n, []⟩ [⟨.root, []⟩] (Or.inr (by simp)) false]
     simp [parseToks, step, stepTop, kEof, kBraceOpen, kNewline, kString, kBraceClose, hsb]
+
+/-- `Keyvalues.parse(chunks)` for an iterable of string chunks (a list, a generator, a file object
+read line by line): the tokenizer runs over the chunk cursor of the concrete model `TokC`. -/
+def parseChunks (T : Tables) (po : ParseOpts) (fold : Char → List Char) (cs : List (List Char)) :
+    PResult :=
+  parseRun po fold (TokC.run T (tokOpts po) fold (TokC.Src.ofChunks cs))
+
+/-- **Round trip for every delivery of the text**: however the serialised text is cut into chunks
+(any number, empty chunks anywhere, cuts inside an escape pair or between the quotes), parsing the
+chunk sequence yields the tree.  (`C01_roundtrip` composed with C03's refinement
+`C03_run_eq_abstract`.) -/
+theorem C01_roundtrip_chunks (T : Tables) (hE : escOK T = true) (hK : kvOK T = true) (po : ParseOpts)
+    (hesc : po.allowEscapes = true) (hsb : po.singleBlock = false) (fold : Char → List Char)
+    (so : SerOpts) (hind : isWs so.indent) (hst : isWs so.startIndent) (t : KV)
+    (ht : okKV po t = true) (cs : List (List Char)) (hcs : cs.flatten = serialise T fullCfg so t) :
+    parseChunks T po fold cs = .root [t] := by
+  unfold parseChunks
+  rw [TokC.C03_run_eq_abstract, hcs]
+  exact C01_roundtrip T hE hK po hesc hsb fold so hind hst t ht
+
+/-- **The writer is injective** on the trees the parser admits: equal text, equal trees (also
+across different indentation options). -/
+theorem C01_serialise_injective (T : Tables) (hE : escOK T = true) (hK : kvOK T = true)
+    (so₁ so₂ : SerOpts) (h₁ : isWs so₁.indent) (h₁' : isWs so₁.startIndent) (h₂ : isWs so₂.indent)
+    (h₂' : isWs so₂.startIndent) (t₁ t₂ : KV) (ok₁ : okKV {} t₁ = true) (ok₂ : okKV {} t₂ = true)
+    (h : serialise T fullCfg so₁ t₁ = serialise T fullCfg so₂ t₂) : t₁ = t₂ := by
+  have r₁ := C01_roundtrip T hE hK {} rfl rfl (fun c => [c]) so₁ h₁ h₁' t₁ ok₁
+  have r₂ := C01_roundtrip T hE hK {} rfl rfl (fun c => [c]) so₂ h₂ h₂' t₂ ok₂
+  rw [h, r₂] at r₁
+  injection r₁ with r₁
+  injection r₁ with r₁
+  exact r₁.symm
 
 /-- The three round-trip theorems at the tables and writer of the **current source**, default
 `Keyvalues.parse` options (so `okKV {} t` reads: no name of `t` contains CR or LF). -/
